@@ -27,6 +27,11 @@ REQUIRED_HOOKS = [
     "op:localgrid",
     "op:ang_size_degree",
     "op:aborted",
+    "op:mol_default",
+    "mol_default:from_size",
+    "mol_default:from_preset",
+    "mol_default:from_pruned",
+    "edit:nested-attribute",
     "aborted:by-warning",
     "aborted:first-construction-of-that-degree",
     "aborted:degree-already-cached",
@@ -44,7 +49,7 @@ REQUIRED_HOOKS = [
     "observe:cache-off",
     "cache-walk",
 ]
-REQUIRED_FAMILIES = ["aliasing-witness", "aborted-by-warning", "size-overrides-degree", "transform-reuse", "mixed", "angular-edit", "atom-mol", "transform", "tables"]
+REQUIRED_FAMILIES = ["aliasing-witness", "default-rgrid-molecules", "aborted-by-warning", "size-overrides-degree", "transform-reuse", "mixed", "angular-edit", "atom-mol", "transform", "tables"]
 BUDGET = {"quick": 400, "thorough": 3600}
 RULE = (
     "One case = one random HISTORY of 10-40 operations executed on the real library inside a worker process whose module-level "
@@ -79,6 +84,10 @@ RULE = (
     "of an instance, executed inside warnings.catch_warnings()+simplefilter('error') with any Warning swallowed by the caller (the documented negative-weights / size-is-used / "
     "power<2 warnings abort the call midway); the aborted call decides nothing, filters are restored, then the usual observations decide: the degrees involved are constructed again "
     "with cache on and off and must equal the shipped file and the cold-process reference, the atomic grid is re-built and compared; warning degrees are drawn with probability 0.75; "
+    "molecular constructors with their DEFAULT rgrid=None (op mol_default + deterministic family default-rgrid-molecules: MolGrid.from_size / from_preset / from_pruned over 10 "
+    "configurations with several and repeated elements, store on/off): the edit targets are collected by walking the PUBLIC ATTRIBUTE GRAPH of every returned object to depth 3 "
+    "(atgrids[i].rgrid.points/.weights, atgrids[i].points/.weights/.indices/.degrees/.center, get_atomic_grid(i).rgrid.*, AtomGrid.rgrid.* ...); after each edit the molecule is "
+    "built again with identical arguments and must equal the digest produced by a COLD process and, attribute by attribute, the first construction; "
     "load_atomic_gaussian_params(symbol|number); get_cov_radii; <METHOD>_CACHE.clear(). "
     "After EVERY operation: (a) structural walk of the discovered module-level caches against the shipped files (evidence; a corrupt "
     "entry aims an API observation at it); (b) deciding, API only: the objects the operation concerns are constructed again with cache on AND "
@@ -112,13 +121,13 @@ TECHNIQUE = "runtime monitoring: history monitor with absolute reference model (
 METHODS = ["lebedev", "spherical", "maxdet", "ahrens_beylkin"]
 SIZE_CAP_ANG = {"lebedev": 1202, "spherical": 1000, "maxdet": 1700, "ahrens_beylkin": 800}
 SIZE_CAP_SHELL = {"lebedev": 350, "spherical": 330, "maxdet": 400, "ahrens_beylkin": 320}
-OPS = ["ang_new", "edit", "atom_new", "shell", "integrate", "mol_new", "tf_new", "tf_call", "gauss", "cov", "cache_clear", "tf_session", "localgrid", "sph", "ang_size_degree", "aborted"]
+OPS = ["ang_new", "edit", "atom_new", "shell", "integrate", "mol_new", "tf_new", "tf_call", "gauss", "cov", "cache_clear", "tf_session", "localgrid", "sph", "ang_size_degree", "aborted", "mol_default"]
 WEIGHTS = {
-    "mixed": [5, 7, 3, 3, 2, 1, 1.5, 4, 2, 1, 0.4, 2, 1, 0.7, 2, 2],
-    "angular-edit": [7, 8, 1, 1, 1, 0, 0, 0, 0, 0, 0.6, 0, 0.7, 0, 3, 3],
-    "atom-mol": [2, 8, 5, 4, 2, 2.5, 0, 0, 0, 0, 0.3, 0, 1.5, 1, 1.5, 2.5],
-    "transform": [0.5, 3, 0, 0, 0, 0, 2, 8, 0, 0, 0, 5, 0, 0, 0, 0.7],
-    "tables": [0.5, 5, 0, 0, 0, 0, 0, 0, 5, 3, 0, 0, 0, 0, 0, 0],
+    "mixed": [5, 7, 3, 3, 2, 1, 1.5, 4, 2, 1, 0.4, 2, 1, 0.7, 2, 2, 1],
+    "angular-edit": [7, 8, 1, 1, 1, 0, 0, 0, 0, 0, 0.6, 0, 0.7, 0, 3, 3, 0],
+    "atom-mol": [2, 9, 5, 4, 2, 2.5, 0, 0, 0, 0, 0.3, 0, 1.5, 1, 1.5, 2.5, 2],
+    "transform": [0.5, 3, 0, 0, 0, 0, 2, 8, 0, 0, 0, 5, 0, 0, 0, 0.7, 0],
+    "tables": [0.5, 5, 0, 0, 0, 0, 0, 0, 5, 3, 0, 0, 0, 0, 0, 0, 0],
 }
 SHARE = {"mixed": 0.40, "angular-edit": 0.20, "atom-mol": 0.20, "transform": 0.12, "tables": 0.08}
 COST = {"mixed": 1.0, "angular-edit": 0.8, "atom-mol": 1.6, "transform": 0.4, "tables": 0.3}
@@ -141,6 +150,21 @@ SESSION_CLASSES = [
     "InverseRTransform",
 ]
 FWD4 = ["transform", "deriv", "deriv2", "deriv3"]
+_C2 = [[0.0, 0.0, 0.0], [0.0, 0.0, 1.4]]
+_C3 = [[0.0, 0.0, 0.0], [0.0, 1.4, 1.1], [0.0, -1.4, 1.1]]
+# molecular constructors called with their DEFAULT rgrid=None (several elements, repeated elements); JSON-able
+MOLDEF = [
+    ["from_size", [1, 1], _C2, {"size": 6}],
+    ["from_size", [8, 1, 1], _C3, {"size": 14}],
+    ["from_size", [6, 6], _C2, {"size": 26}],
+    ["from_size", [7, 1, 7], _C3, {"size": 6}],
+    ["from_preset", [1, 1], _C2, {"preset": "coarse"}],
+    ["from_preset", [8, 1, 1], _C3, {"preset": "coarse"}],
+    ["from_preset", [7, 7], _C2, {"preset": "sg_1"}],
+    ["from_pruned", [1, 1], _C2, {"radius": 1.0, "r_sectors": [[0.5, 1.0, 1.5]] * 2, "d_sectors": [[3, 5, 7, 5]] * 2}],
+    ["from_pruned", [6, 8, 8], _C3, {"radius": [1.2, 1.0, 1.0], "r_sectors": [[0.5, 1.5]] * 3, "d_sectors": [[3, 7, 5]] * 3}],
+    ["from_pruned", [1, 6, 1], _C3, {"radius": 1.0, "r_sectors": [[1.0]] * 3, "d_sectors": [[5, 3]] * 3}],
+]
 NEG_LEBEDEV = [13, 25, 27]  # Lebedev degrees with negative weights: their construction emits a (documented) warning
 ABORT_ROUTES = ["ang-degree", "ang-rounded-degree", "ang-size", "atom-degrees", "atom-sizes", "mol", "mol-from-size", "power-transform"]
 ELEMENTS = {"H": 1, "C": 6, "N": 7, "O": 8, "Cl": 17}
@@ -172,6 +196,11 @@ def cases(tier, seed):
                 for k in range(1 if tier == "quick" else 4):
                     out.append(("aborted-by-warning", {"degree": d, "route": route, "first": first, "k": k, "hid": 63000 + j}, 40.0))
                     j += 1
+    j = 0
+    for i in range(len(MOLDEF)):
+        for k in range(2 if tier == "quick" else 12):
+            out.append(("default-rgrid-molecules", {"config": i, "k": k, "hid": 64000 + j}, 35.0))
+            j += 1
     nrep = 6 if tier == "quick" else 60
     j = 0
     for cls in SESSION_CLASSES:
@@ -224,6 +253,7 @@ def setup(ctx):
         # a COLD request by size does not give the supported row of that size: C12's subject, and no reference for C19
         raise RuntimeError(f"cold-process reference reports other rows than requested for {bad[:3]}")
     ctx.count("cold-process-reference-rows", len(rows))
+    H.cold_mol_reference(MOLDEF)
     H.install_angular_monitor(ctx)
 
 
@@ -406,6 +436,13 @@ class History:
         from grid.becke import BeckeWeights
         from grid.molgrid import MolGrid
 
+        if ms.get("ctor") == "default-rgrid":
+            ctor, atnums, coords, kw = MOLDEF[ms["config"]]
+            self.ctx.hit("mol_default:" + ctor)
+            kw = dict(kw)
+            if ms["store"]:
+                kw["store"] = True
+            return getattr(MolGrid, ctor)(np.array(atnums), np.array(coords, dtype=float), **kw)  # rgrid=None, rotate, aim_weights: defaults
         if ms.get("ctor") == "from_size":
             from grid.basegrid import OneDGrid
 
@@ -423,6 +460,16 @@ class History:
 
     def check_mol(self, clause, subj, mol, ms, skip=()):
         ctx = self.ctx
+        if ms.get("ctor") == "default-rgrid":
+            if {"points", "weights"} & set(skip):
+                return
+            ref = H.cold_mol_reference(MOLDEF)[ms["config"]]
+            got = H.mol_digest(mol)
+            sig = None
+            if got != tuple(ref):
+                sig = "differs-from-cold-process:" + ("point-count" if got[0] != ref[0] else ("points" if got[1] != ref[1] else "weights"))
+            ctx.check("molgrid-equals-cold-process", subj, sig is None, sig=sig, detail={"config": MOLDEF[ms["config"]][:2], "size": got[0], "cold_size": ref[0], "hist": self.hid, "op": self.op})
+            return
         sizes = [sum(s for _, s in sp["rows"]) for sp in ms["atoms"]]
         ind = np.concatenate([[0], np.cumsum(sizes)])
         if not np.array_equal(np.asarray(mol.indices), ind) or mol.points.shape != (ind[-1], 3):
@@ -450,7 +497,7 @@ class History:
                 ctx.check(clause, subj + ".aim_weights", bool(np.all(np.asarray(mol.aim_weights) == 1.0)), sig="explicit-aim-weights-changed")
 
     def observe_mol(self, ms, why):
-        subj = f"MolGrid[{ms['atoms'][0]['method']}:{ms['aim']}:store={ms['store']}]"
+        subj = f"MolGrid.{MOLDEF[ms['config']][0]}[rgrid=None]" if ms.get("ctor") == "default-rgrid" else f"MolGrid[{ms['atoms'][0]['method']}:{ms['aim']}:store={ms['store']}]"
         with self.guard(subj) as gd:
             mol = self.build_mol(ms)
         if not gd.ok:
@@ -708,7 +755,8 @@ class History:
             self.observe_angular(rec["spec"]["method"], d, s, why)
         elif k == "mol":
             self.observe_mol(rec["spec"], why)
-            self.observe_atom(rec["spec"]["atoms"][0], why)
+            if rec["spec"].get("atoms"):
+                self.observe_atom(rec["spec"]["atoms"][0], why)
         elif k in ("tfres", "oned"):
             self.recall_tf(rec, why)
         elif k == "gauss":
@@ -782,6 +830,8 @@ class History:
         if holder is not None:
             self.taint(rec)
             self.ctx.hit("edit:introspected-attribute")
+            if name.count(".") >= 1:
+                self.ctx.hit("edit:nested-attribute")
         else:
             rec["dirty"].add(name)
             if sum(1 for r in self.live if r.get("group") == rec["group"]) > 1:
@@ -899,7 +949,7 @@ class History:
 
     def op_integrate(self):
         rng = self.rng
-        cands = [r for r in self.live if r["kind"] in ("ang", "atom", "mol") and not r.get("tainted") and "weights" not in r["dirty"] and not (r["kind"] == "mol" and (r["spec"]["aim"] != "ones" or r["dirty"]))]
+        cands = [r for r in self.live if r["kind"] in ("ang", "atom", "mol") and not r.get("tainted") and "weights" not in r["dirty"] and not (r["kind"] == "mol" and (r["spec"].get("aim") != "ones" or r["dirty"]))]
         if not cands:
             return self.op_ang_new()
         rec = cands[int(rng.integers(len(cands)))]
@@ -1513,6 +1563,33 @@ class History:
             self.tfs.append(rec_tf)
             self.observe_tf(rec_tf, why)
 
+    def op_mol_default(self, config=None):
+        """MolGrid.from_size / from_preset / from_pruned with the DEFAULT rgrid=None (library-made radial grids, several and
+        repeated elements): the returned object graph (atgrids[i].rgrid.points ...) becomes an edit target; every (re-)construction
+        with identical arguments must equal the cold-process digest and the first construction."""
+        rng = self.rng
+        i = int(rng.integers(len(MOLDEF))) if config is None else int(config)
+        ms = next((m for m in self.specs if m.get("ctor") == "default-rgrid" and m["config"] == i and m["store"] == (config is not None or m["store"])), None)
+        fresh_spec = ms is None
+        if fresh_spec:
+            ms = {"is_mol": True, "ctor": "default-rgrid", "config": i, "store": True if config is not None else bool(rng.random() < 0.7), "aim": "becke"}
+        subj = f"MolGrid.{MOLDEF[i][0]}[rgrid=None]"
+        with self.guard(subj) as gd:
+            mol = self.build_mol(ms)
+        if not gd.ok:
+            return
+        self.ctx.hit("op:mol_default")
+        self.ctx.count(f"class:mol_default:{MOLDEF[i][0]}:atnums={MOLDEF[i][1]}:store={ms['store']}")
+        self.check_mol("molgrid-blocks-identity", subj, mol, ms)
+        if fresh_spec:
+            ms["snap"] = (np.array(mol.points), np.array(mol.weights))
+            ms["snap_public"] = H.snapshot_public(mol)
+            self.specs.append(ms)
+        else:
+            self.compare_snapshot(subj, mol, ms["snap_public"], "an earlier construction with identical arguments")
+        self.add({"kind": "mol", "obj": mol, "spec": ms, "label": subj})
+        self.log.append(f"mol_default({MOLDEF[i][0]},{MOLDEF[i][1]})")
+
     def op_localgrid(self):
         """LocalGrid objects (MolGrid.get_atomic_grid / MolGrid[i] / Grid.get_localgrid): their arrays, centre and indices
         become edit targets; they share state with their parent by design (same group)."""
@@ -1524,7 +1601,7 @@ class History:
         subj = f"{par['label']}.localgrid"
         with self.guard(subj) as gd:
             if par["kind"] == "mol":
-                i = int(rng.integers(len(par["spec"]["atoms"])))
+                i = int(rng.integers(len(par["obj"].atcoords)))
                 lg = par["obj"].get_atomic_grid(i) if rng.random() < 0.5 else par["obj"][i]
             else:
                 c = par["obj"].points[int(rng.integers(par["obj"].size))]
@@ -1640,6 +1717,20 @@ def run_case(ctx, family, params):
         h = History(ctx, params["hid"], family)
         h.op += 1
         h.op_ang_size_degree(method=params["method"], wkind=params["warm"], via=params["via"], exhaustive=True)
+        h.op += 1
+        h.finish()
+        ctx.case_note("ops", h.log[:12])
+        return None
+    if family == "default-rgrid-molecules":
+        h = History(ctx, params["hid"], family)
+        h.op += 1
+        h.op_mol_default(config=params["config"])
+        for _ in range(6):
+            h.op += 1
+            (h.op_edit if h.rng.random() < 0.7 else h.op_localgrid)()
+            h.after_op("edit in a default-rgrid molecule history")
+        h.op += 1
+        h.op_mol_default(config=params["config"])
         h.op += 1
         h.finish()
         ctx.case_note("ops", h.log[:12])
